@@ -26,7 +26,7 @@ RULE = (
     "scalar q none; refusals must be ValueError/NotImplementedError. Non-trivial = a group of size>=2 with non-integral "
     "virtual index, or a NaN inside a group."
 )
-BUDGET = {"quick": 500, "thorough": 5000}
+BUDGET = {"quick": 1000, "thorough": 6000}
 ASSUMPTIONS = ["infinities excluded (NumPy's own interpolation is ill-defined there)", "vector q (of any length) with engine='numpy' is treated as the documented refusal (ValueError)", "inputs whose labels are all missing (no group at all) are skipped: the property quantifies over groups of size >= 1"]
 QS = [0.0, 1.0, 0.5, 0.25, 1 / 3, 0.9, 0.1, 0.75]
 VALS = [-5.0, -2.0, -2.0, -0.5, 0.0, 0.0, 1.0, 1.5, 3.0, 3.0, 7.0]
